@@ -5,6 +5,7 @@ mod c04;
 mod c04l;
 mod c05;
 mod c03;
+mod c03t;
 mod c11;
 mod c11for;
 mod c11store;
